@@ -295,9 +295,91 @@ def _mlist(pl, nl, b):
     return len(pl) == len(nl)
 
 
+def _locals_of(root):
+    """Names bound inside the function that contains / is `root`
+    (assignment, loop, with, comprehension targets) minus its parameters."""
+    fn = root
+    while fn is not None and not isinstance(fn, (ast.FunctionDef,
+                                                 ast.AsyncFunctionDef)):
+        fn = parent(fn)
+    if fn is None:
+        return set()
+    key = id(fn)
+    hit = _locals_cache.get(key)
+    if hit is not None and hit[0] is fn:
+        return hit[1]
+    names = set()
+    for n in ast.walk(fn):
+        if isinstance(n, ast.Name) and isinstance(n.ctx, ast.Store):
+            names.add(n.id)
+    a = fn.args
+    for x in a.posonlyargs + a.args + a.kwonlyargs:
+        names.discard(x.arg)
+    _locals_cache[key] = (fn, names)
+    return names
+
+
+_locals_cache = {}
+
+
+class _Generalise(ast.NodeTransformer):
+    def __init__(self, names):
+        self.names = names
+
+    def visit_Name(self, n):
+        if n.id in self.names and not n.id.startswith('Q'):
+            return ast.copy_location(ast.Name(id='Q_L_' + n.id, ctx=n.ctx), n)
+        return n
+
+
 def find_all(pat, root, mode='expr', nested=True):
-    """All (node, bindings) in root matching pattern."""
-    p = _parse_pat(pat, mode)
+    """All (node, bindings) in root matching pattern.  If the literal
+    pattern matches nothing, it is retried with every name that is a *local
+    variable* of the enclosing function turned into a (consistent)
+    metavariable, so that renaming a local does not change the verdict."""
+    out = _find_all(_parse_pat(pat, mode), root, mode, nested)
+    if out:
+        return out
+    pl = _parse_pat(pat, mode)
+    pat_names = {n.id for n in ast.walk(pl) if isinstance(n, ast.Name)}
+    # names of the pattern that are not bound in the code any more are
+    # candidates for having been renamed; names still bound are generalised
+    # too (the statement may have been re-expressed with another local)
+    cand = {n for n in pat_names if not n.startswith('Q')
+            and n not in _KEEP_NAMES}
+    loc = _locals_of(root)
+    fnparams = set()
+    fn = root
+    while fn is not None and not isinstance(fn, (ast.FunctionDef,
+                                                 ast.AsyncFunctionDef)):
+        fn = parent(fn)
+    if fn is not None:
+        a = fn.args
+        fnparams = {x.arg for x in a.posonlyargs + a.args + a.kwonlyargs}
+    gen = {n for n in cand if n not in fnparams and
+           (n in loc or n not in _names_used(fn))}
+    if not gen:
+        return out
+    import copy as _copy
+    pg = _Generalise(gen).visit(ast.parse(pat, mode='eval').body
+                                if mode == 'expr' else ast.parse(pat).body[0])
+    return _find_all(pg, root, mode, nested)
+
+
+_KEEP_NAMES = {'self', 'np', 'numpy', 'dassh', 'copy', 'os', 'sys', 'len',
+               'range', 'sum', 'min', 'max', 'abs', 'float', 'int', 'list',
+               'dict', 'any', 'all', 'sorted', 'reversed', 'tuple', 'set',
+               'str', 'True', 'False', 'None', 'utils', 'mesh_functions',
+               'module_logger', 'logging', 'math', 'bisect', 'print', 're'}
+
+
+def _names_used(fn):
+    if fn is None:
+        return set()
+    return {n.id for n in ast.walk(fn) if isinstance(n, ast.Name)}
+
+
+def _find_all(p, root, mode, nested):
     out = []
     it = ast.walk(root) if nested else walk_no_nested(root)
     for n in it:
